@@ -258,7 +258,45 @@ def gen_legend():
     return {"legend": names, "highlighted": sum(1 for v in variants if arms[v] is not None)}
 
 
-GENERATORS = [("GenTokens", gen_tokens), ("GenLegend", gen_legend)]
+# ------------------------------------------------------------------------------------------
+# source.rs -> GenDecoders.v
+# ------------------------------------------------------------------------------------------
+def gen_decoders():
+    src = read("compiler/plc2x/src/source.rs")
+    m = re.search(r"fn path_to_source\(path: &Path\) -> Result<String, Diagnostic> \{(.*?)\n\}\n", src, re.S)
+    if not m:
+        raise Refuse("source.rs: path_to_source not found")
+    body = m.group(1)
+    code = "\n".join(l for l in body.split("\n") if not l.strip().startswith("//") and "trace!" not in l and "debug!" not in l)
+    m = re.search(r"let decoders: \[&'static encoding_rs::Encoding; (\d+)\] =\s*\[(.*?)\];", code, re.S)
+    if not m:
+        raise Refuse("source.rs: decoder array not found")
+    names = [x.strip() for x in m.group(2).split(",") if x.strip()]
+    if len(names) != int(m.group(1)):
+        raise Refuse("source.rs: decoder array length mismatch")
+    known = {"encoding_rs::UTF_8": "E8", "encoding_rs::WINDOWS_1252": "E1252", "encoding_rs::UTF_16LE": "E16LE",
+             "encoding_rs::UTF_16BE": "E16BE"}
+    for n in names:
+        if n not in known:
+            raise Refuse("source.rs: decoder %s has no model" % n)
+    # the shape of the cascade: read the file, first decoder without errors, else UnsupportedEncoding
+    squashed = re.sub(r"\s+", " ", code)
+    for frag in ["let bytes = std::fs::read(path)", "decoders.into_iter().find_map(move |d| {",
+                 "let (res, encoding_used, had_errors) = d.decode(&bytes);", "if had_errors {", "return None; }",
+                 "Some(res.to_string()) });", "match result { Some(res) => Ok(res), None => Err(diagnostic( Problem::UnsupportedEncoding,"]:
+        if frag not in squashed:
+            raise Refuse("source.rs: path_to_source no longer has the modelled shape (missing %r)" % frag)
+    # nothing else may decode or transform: count statements
+    if squashed.count(".decode(") != 1 or squashed.count("decode") != squashed.count("decoders") + 1 or "mem::" in squashed:
+        raise Refuse("source.rs: path_to_source decodes in a way the model does not know")
+    o = ["(* GENERATED by tools/translate.py from compiler/plc2x/src/source.rs -- do not edit *)",
+         "From Coq Require Import List.", "From Verif Require Import Model.Decode.", "Import ListNotations.", "",
+         "Definition decoders : list enc := [" + "; ".join(known[n] for n in names) + "].", ""]
+    write_if_changed("GenDecoders.v", "\n".join(o) + "\n")
+    return {"decoders": names}
+
+
+GENERATORS = [("GenTokens", gen_tokens), ("GenLegend", gen_legend), ("GenDecoders", gen_decoders)]
 
 
 def main():
